@@ -127,12 +127,13 @@ PROPS["C13"] = dict(
                "unstable block exactly as the stored reply dictates; a reply is folded into the stored state as the statement says (reject discards, partial "
                "starts at page 0, page k+1 appended bit-identically, complete exactly at the announced page count); the guard is handed out iff none is alive; "
                "processing leaves a non-complete reply untouched and consumes a complete one exactly once; wf_sync is preserved by every step",
-    level_note="heartbeat()/maybe_fetch_blocks() are async fns (outside both tools): phase order, liveness ('eventually applied') and the interleaving "
-               "quantifier are NOT decided; maybe_fetch_blocks from its start to the get_successors call is verified as a slice with Rust's drop timing made "
+    level_note="heartbeat()/maybe_fetch_blocks() are async fns: liveness ('eventually applied') and the interleaving quantifier are NOT decided; the phase order "
+               "of heartbeat() is verified on its real body with the phases as trace-appending stand-ins (ingest first; fetch only if nothing was ingested; process "
+               "only if no request was sent); maybe_fetch_blocks from its start to the get_successors call is verified as a slice with Rust's drop timing made "
                "explicit (R14): a request goes out only if none was outstanding and the guard's flag is still raised when the call is made; replies are assumed to conform to the request in flight (else the repo traps)",
     explanation="the closure after the await is lifted as a statement slice (R8); with_state_mut closures are made state-passing (R7).",
     unverified_links=[
-        "async fn heartbeat / maybe_fetch_blocks: phase order ingest -> fetch -> process, call_get_successors; the guard being dropped only after the reply closure ran (end of the async fn's scope: Rust semantics, by inspection)",
+        "call_get_successors and the scheduling of the async fns; the guard being dropped only after the reply closure ran (end of the async fn's scope: Rust semantics, by inspection)",
         "liveness: 'once the source answers normally every offered valid block is eventually applied'",
         "upgrades (pre/post_upgrade call reset_syncing_state, which IS verified; serialisation is not)",
     ],
